@@ -42,33 +42,66 @@ def parse_delivs(s):
 
 
 class Ev:
-    __slots__ = ("i", "op", "args", "ans", "t0", "t1", "side", "line")
+    __slots__ = ("i", "op", "args", "ans", "t0", "t1", "side", "line", "b", "e", "dropped")
 
     def __repr__(self):
         return "%s@%d" % (self.op, self.t1)
 
 
-def history(ops, answers, sides):
+def history(ops, answers, sides, conc=False):
     evs = []
+    timed = []
     t_prev = 0
     for i, (l, a) in enumerate(zip(ops, answers)):
         toks = l.split()
         e = Ev()
         e.i, e.line = i, l
         e.op, e.args = (toks[0], toks[1:]) if toks else ("", [])
+        e.dropped = False
+        if toks and (toks[0] == "direct" or (toks[0].startswith("drop") and toks[0][4:].isdigit())) and len(toks) > 1:
+            e.op, e.args = toks[1], toks[2:]
+            e.dropped = a == "dropped"
+            if e.op == "csub" and len(e.args) == 3:
+                e.args = e.args + ["-"]
         e.ans = a
         sd = sides[i] if i < len(sides) else ""
-        parts = sd.split(" ", 1)
-        try:
-            e.t1 = int(parts[0])
-        except ValueError:
-            e.t1 = t_prev
-        e.side = parts[1] if len(parts) > 1 else ""
+        e.b = e.e = i
+        if conc:
+            parts = sd.split(" ", 3)
+            try:
+                e.t1, e.b, e.e = int(parts[0]), int(parts[1]), int(parts[2])
+                timed.append(e)
+            except (ValueError, IndexError):
+                e.t1 = t_prev
+            e.side = parts[3] if len(parts) > 3 else ""
+        else:
+            parts = sd.split(" ", 1)
+            try:
+                e.t1 = int(parts[0])
+            except ValueError:
+                e.t1 = t_prev
+            e.side = parts[1] if len(parts) > 1 else ""
         e.t0 = t_prev
         if e.op == "new":
             e.t0 = e.t1 = 0
         t_prev = e.t1
         evs.append(e)
+    if conc:
+        # begin time of an op inside a task: the end time of the previous op of the same task is
+        # not known per line; use the latest end time among ops that certainly ended before it began
+        ends = sorted((x.e, x.t1) for x in timed)
+        import bisect
+        keys = [k for k, _ in ends]
+        best = []
+        m = 0
+        for _, t in ends:
+            m = max(m, t)
+            best.append(m)
+        for x in timed:
+            j = bisect.bisect_left(keys, x.b) - 1
+            x.t0 = best[j] if j >= 0 else 0
+            if x.t0 > x.t1:
+                x.t0 = x.t1
     return evs
 
 
@@ -117,13 +150,13 @@ class World:
                     self.sub_counter += 1
                     dl = int(a[2])
                     self.subs[n] = dict(inc=self.sub_counter, topic_inc=self.topic_inc.get(t), topic=t,
-                                        effdl=max(dl, 10) * US, created_at=e.t0, push=a[3], ev=e.i)
+                                        effdl=max(dl, 10) * US, created_at=e.t0, push=a[3], ev=e.i, b=e.b, e=e.e)
                     self.sub_order.append((self.sub_counter, n))
             elif e.op == "dsub" and ok:
                 n = split_name(unhx(a[0]), b"subscriptions")
                 if n in self.subs:
                     s = self.subs.pop(n)
-                    self.dead_subs.append(dict(inc=s["inc"], deleted_at=e.t1, name=n, topic_inc=s["topic_inc"], ev=e.i))
+                    self.dead_subs.append(dict(inc=s["inc"], deleted_at=e.t1, name=n, topic_inc=s["topic_inc"], ev=e.i, b=e.b, e=e.e))
                     self.sub_order = [x for x in self.sub_order if x[0] != s["inc"]]
             elif e.op == "pub" and ok:
                 t = split_name(unhx(a[0]), b"topics")
@@ -132,17 +165,17 @@ class World:
                 for m in sl(a[1], ","):
                     parts = m.split(";", 1)
                     payloads.append((parts[0], parts[1] if len(parts) > 1 else "-"))
-                self.pubs.append(dict(t0=e.t0, t1=e.t1, topic_inc=self.topic_inc.get(t), ids=ids, payloads=payloads, ev=e.i))
+                self.pubs.append(dict(t0=e.t0, t1=e.t1, topic_inc=self.topic_inc.get(t), ids=ids, payloads=payloads, ev=e.i, b=e.b, e=e.e))
             elif e.op == "pull" and ok:
                 n = split_name(unhx(a[0]), b"subscriptions")
                 s = self.subs.get(n)
                 items = parse_delivs(e.ans[3:].strip())
                 self.delivs.append(dict(sub_inc=s["inc"] if s else None, sub=n, t0=e.t0, t1=e.t1, items=items, via="pull",
-                                        ev=e.i, ev0=e.i, max=int(a[1]), ri=a[2] == "1", times=e.side))
+                                        ev=e.i, ev0=e.i, b=e.b, e=e.e, max=int(a[1]), ri=a[2] == "1", times=e.side))
             elif e.op == "sopen" and ok:
                 n = split_name(unhx(a[1]), b"subscriptions")
                 s = self.subs.get(n)
-                self.streams[int(a[0])] = dict(sub_inc=s["inc"] if s else None, sub=n, max=int(a[2]), last_read=e.t0, last_ev=e.i)
+                self.streams[int(a[0])] = dict(sub_inc=s["inc"] if s else None, sub=n, max=int(a[2]), last_read=e.t0, last_ev=e.i, last_b=e.b)
             elif e.op == "sread":
                 st = self.streams.get(int(a[0]))
                 if st:
@@ -150,18 +183,19 @@ class World:
                         if it.startswith("msgs:"):
                             items = parse_delivs(it[5:])
                             self.delivs.append(dict(sub_inc=st["sub_inc"], sub=st["sub"], t0=st["last_read"], t1=e.t1, items=items,
-                                                    via="stream", ev=e.i, ev0=st["last_ev"], max=st["max"], ri=True, times=""))
+                                                    via="stream", ev=e.i, ev0=st["last_ev"], b=st["last_b"], e=e.e, max=st["max"], ri=True, times=""))
                     st["last_read"] = e.t1
                     st["last_ev"] = e.i
+                    st["last_b"] = e.b
             elif e.op == "ack" and ok:
                 n = split_name(unhx(a[0]), b"subscriptions")
                 s = self.subs.get(n)
-                self.acks.append(dict(sub_inc=s["inc"] if s else None, t0=e.t0, t1=e.t1, ids=[unhx(x) for x in sl(a[1], ",")], ev=e.i))
+                self.acks.append(dict(sub_inc=s["inc"] if s else None, t0=e.t0, t1=e.t1, ids=[unhx(x) for x in sl(a[1], ",")], ev=e.i, b=e.b, e=e.e))
             elif e.op == "mod" and ok:
                 n = split_name(unhx(a[0]), b"subscriptions")
                 s = self.subs.get(n)
                 ids = [unhx(x) for x in sl(a[2], ",")]
-                self.mods.append(dict(sub_inc=s["inc"] if s else None, t0=e.t0, t1=e.t1, ids=ids, secs=[int(a[1])] * len(ids), ev=e.i))
+                self.mods.append(dict(sub_inc=s["inc"] if s else None, t0=e.t0, t1=e.t1, ids=ids, secs=[int(a[1])] * len(ids), ev=e.i, b=e.b, e=e.e))
             elif e.op == "ssend" and e.ans == "ok":
                 st = self.streams.get(int(a[0]))
                 if st and a[1] == "-" and int(a[5]) <= 0 and int(a[6]) <= 0:
@@ -171,9 +205,9 @@ class World:
                     valid = len(mids) == len(secs) and all(ackid_ok(x) for x in acks + mids) and all(x >= 0 for x in secs)
                     if valid:
                         if acks:
-                            self.acks.append(dict(sub_inc=st["sub_inc"], t0=e.t0, t1=e.t1, ids=acks, ev=e.i))
+                            self.acks.append(dict(sub_inc=st["sub_inc"], t0=e.t0, t1=e.t1, ids=acks, ev=e.i, b=e.b, e=e.e + 1000000))
                         if mids:
-                            self.mods.append(dict(sub_inc=st["sub_inc"], t0=e.t0, t1=e.t1, ids=mids, secs=secs, ev=e.i))
+                            self.mods.append(dict(sub_inc=st["sub_inc"], t0=e.t0, t1=e.t1, ids=mids, secs=secs, ev=e.i, b=e.b, e=e.e + 1000000))
 
 
 # ---------------------------------------------------------------------------------------------
@@ -204,15 +238,15 @@ def _lease_end_lower(w, d, ack, upto_ev):
             effdl = x["effdl"]
     end = d["t0"] + effdl
     for m in w.mods:
-        if m["sub_inc"] != d["sub_inc"] or m["ev"] <= d["ev0"] or m["ev"] >= upto_ev:
+        if m["sub_inc"] != d["sub_inc"] or m["e"] <= d["b"] or m["b"] >= upto_ev:
             continue
         for i, s_ in zip(m["ids"], m["secs"]):
             if _names([i], ack):
                 if s_ == 0 or m["t1"] >= end:
                     return None           # nacked, or the lease may have been over when modified
-                end = min(end, m["t0"] + min(s_, 600) * US) if m["ev"] <= d["ev"] else m["t0"] + min(s_, 600) * US
+                end = min(end, m["t0"] + min(s_, 600) * US) if m["b"] <= d["e"] else m["t0"] + min(s_, 600) * US
     for x in w.acks:
-        if x["sub_inc"] == d["sub_inc"] and d["ev0"] < x["ev"] < upto_ev and _names(x["ids"], ack):
+        if x["sub_inc"] == d["sub_inc"] and d["b"] < x["e"] and x["b"] < upto_ev and _names(x["ids"], ack):
             return None
     return end
 
@@ -236,8 +270,8 @@ def c03(w):
             k2 = (d["sub_inc"], m)
             if k2 in last:
                 pd, pa = last[k2]
-                end = _lease_end_lower(w, pd, pa, d["ev"])
-                if end is not None and d["t1"] < end:
+                end = _lease_end_lower(w, pd, pa, d["e"])
+                if pd["e"] < d["b"] and end is not None and d["t1"] < end:
                     f.append(("c03:lease-broken:%s" % d["via"],
                               "message %d delivered again on %r at t<=%d while its lease (ack id %d, handed out at >=%d) runs until >=%d (op #%d)"
                               % (m, d["sub"], d["t1"], pa, pd["t0"], end, d["ev"])))
@@ -261,13 +295,13 @@ def c02(w):
             if not hit:
                 continue
             d, m = hit
-            if d["ev"] >= x["ev"]:
+            if d["e"] >= x["b"]:
                 continue                      # not certainly delivered before the ack was issued
-            end = _lease_end_lower(w, d, a, x["ev"])
+            end = _lease_end_lower(w, d, a, x["e"])
             if end is None or x["t1"] >= end:
                 continue                      # the lease may already have ended: no claim
             for d2 in w.delivs:
-                if d2["sub_inc"] == x["sub_inc"] and d2 is not d and d2["ev0"] > x["ev"] and any(mm == m for (_, mm, _, _) in d2["items"]):
+                if d2["sub_inc"] == x["sub_inc"] and d2 is not d and d2["b"] > x["e"] and any(mm == m for (_, mm, _, _) in d2["items"]):
                     f.append(("c02:redelivered-after-ack:%s" % d2["via"],
                               "message %d acknowledged (ack id %d, op #%d) at t=%d while leased until >=%d, delivered again at op #%d"
                               % (m, a, x["ev"], x["t1"], end, d2["ev"])))
@@ -290,8 +324,8 @@ def c04(w):
             for (sinc, m), (pd, pa) in list(last.items()):
                 if sinc != d["sub_inc"] or m in have:
                     continue
-                modified = any(x["sub_inc"] == sinc and x["ev"] > pd["ev0"] and _names(x["ids"], pa) for x in w.mods)
-                acked = any(x["sub_inc"] == sinc and x["ev"] > pd["ev0"] and _names(x["ids"], pa) for x in w.acks)
+                modified = any(x["sub_inc"] == sinc and x["e"] > pd["b"] and _names(x["ids"], pa) for x in w.mods)
+                acked = any(x["sub_inc"] == sinc and x["e"] > pd["b"] and _names(x["ids"], pa) for x in w.acks)
                 open_stream = any(st["sub_inc"] == sinc for st in w.streams.values())
                 if modified or acked or open_stream:
                     continue
@@ -304,119 +338,165 @@ def c04(w):
 
 
 def c01(w):
-    """No loss, no foreign message."""
+    """No loss, no foreign message (intervals: b = begin, e = end sequence number of a call)."""
     f = []
-    allowed = {}        # sub_inc -> set of ids it may receive
-    must = {}           # sub_inc -> set of ids it must have received / still serve
-    sub_by_inc = {}
-    for n, s in w.subs.items():
-        sub_by_inc[s["inc"]] = (n, s, None)
-    for x in w.dead_subs:
-        sub_by_inc[x["inc"]] = (x["name"], dict(topic_inc=x["topic_inc"], created_at=None, ev=None), x["deleted_at"])
-    # reconstruct creation event index for dead subs is not needed: use pubs' event order
-    created_ev = {}
-    deleted_ev = {}
-    topic_deleted_ev = {}
+    # incarnations of topics and subscriptions with the calls that created / (maybe) deleted them
+    topics = {}      # name -> current incarnation dict
+    subs = {}
+    all_subs = []
     counter = 0
-    inc_of_topic = {}
-    sc = 0
+    unknown_pub = set()       # topic names with an abandoned / hung publish: unknown ids may exist
+    for e in w.evs:
+        ok = e.ans.startswith("ok")
+        maybe = ok or e.dropped or e.ans.startswith("HANG")
+        if e.op == "ctopic" and maybe:
+            n = split_name(unhx(e.args[0]), b"topics")
+            if n is not None and (ok or n not in topics):
+                counter += 1
+                topics[n] = dict(inc=counter, b=e.b, e=e.e, del_b=None)
+        elif e.op == "dtopic" and maybe:
+            n = split_name(unhx(e.args[0]), b"topics")
+            if n in topics and topics[n]["del_b"] is None:
+                topics[n]["del_b"] = e.b
+                if ok:
+                    topics[n] = dict(topics[n])
+                    topics.pop(n)
+        elif e.op == "csub" and ok:
+            n = split_name(unhx(e.args[0]), b"subscriptions")
+            t = split_name(unhx(e.args[1]), b"topics")
+            if n is not None:
+                ent = dict(name=n, topic=t, tinc=topics.get(t, {}).get("inc"), trec=topics.get(t), b=e.b, e=e.e, del_b=None, deleted=False)
+                subs[n] = ent
+                all_subs.append(ent)
+        elif e.op == "dsub" and maybe:
+            n = split_name(unhx(e.args[0]), b"subscriptions")
+            if n in subs and subs[n]["del_b"] is None:
+                subs[n]["del_b"] = e.b
+            if n in subs and ok:
+                subs[n]["deleted"] = True
+                subs.pop(n)
+        elif e.op == "pub" and not ok and (e.dropped or e.ans.startswith("HANG")):
+            unknown_pub.add(split_name(unhx(e.args[0]), b"topics"))
+    # publishes with their topic incarnation at call time: recompute by replaying creation order
+    pubs = []
+    tcur = {}
+    cnt = 0
     for e in w.evs:
         ok = e.ans.startswith("ok")
         if e.op == "ctopic" and ok:
             n = split_name(unhx(e.args[0]), b"topics")
             if n is not None:
-                counter += 1
-                inc_of_topic[n] = counter
-        elif e.op == "dtopic" and ok:
+                cnt += 1
+                tcur[n] = cnt
+        elif e.op == "pub" and ok:
             n = split_name(unhx(e.args[0]), b"topics")
-            if n in inc_of_topic:
-                topic_deleted_ev[inc_of_topic.pop(n)] = e.i
-        elif e.op == "csub" and ok:
-            n = split_name(unhx(e.args[0]), b"subscriptions")
-            if n is not None:
-                sc += 1
-                created_ev[sc] = (e.i, inc_of_topic.get(split_name(unhx(e.args[1]), b"topics")))
-    for x in w.dead_subs:
-        deleted_ev[x["inc"]] = x["ev"]
-    for inc, (cev, tinc) in created_ev.items():
-        allowed[inc] = set()
-        must[inc] = set()
-        for p in w.pubs:
-            if p["topic_inc"] == tinc and tinc is not None and p["ev"] > cev and (inc not in deleted_ev or p["ev"] < deleted_ev[inc]):
-                allowed[inc].update(p["ids"])
-                must[inc].update(p["ids"])
-    got = {}
+            ids = [int(unhx(x)) for x in sl(e.ans[3:].strip(), ",")]
+            pubs.append(dict(topic=n, ids=ids, b=e.b, e=e.e))
+    by_name_delivs = {}
     for d in w.delivs:
-        if d["sub_inc"] is None:
-            continue
-        for (_, m, _, _) in d["items"]:
-            got.setdefault(d["sub_inc"], set()).add(m)
-            if m not in allowed.get(d["sub_inc"], set()):
-                f.append(("c01:foreign", "subscription %r received message %d which was not published to its topic while it was attached (op #%d)"
-                          % (d["sub"], m, d["ev"])))
-    # loss: only for subscriptions alive at the end whose final drain was complete
+        by_name_delivs.setdefault(d["sub"], []).append(d)
+    acked_by_sub = {}
+    by_ack = {}
+    for d in w.delivs:
+        for (a_, m, _, _) in d["items"]:
+            by_ack[(d["sub"], d["sub_inc"], a_)] = m
+    for x in w.acks:
+        for d in w.delivs:
+            pass
     final_stats = {}
     for e in w.evs:
-        if e.op == "stats" and e.ans not in ("none", "closed"):
+        if e.op in ("stats", "probe") and e.ans not in ("none", "closed") and not e.ans.startswith(("HANG", "PANIC")):
             n = split_name(unhx(e.args[0]), b"subscriptions")
             parts = e.ans.split()
             final_stats[n] = (int(parts[0]), int(parts[1]), e.i)
-    acked_msgs = {}
-    by_ack = {}
-    for d in w.delivs:
-        for (a, m, _, _) in d["items"]:
-            by_ack[(d["sub_inc"], a)] = m
-    for x in w.acks:
-        for raw in x["ids"]:
-            if ackid_ok(raw):
-                m = by_ack.get((x["sub_inc"], int(raw.lstrip(b"+"))))
-                if m is not None:
-                    acked_msgs.setdefault(x["sub_inc"], set()).add(m)
     drained = hasattr(w, "drain_from")
-    for n, s in w.subs.items():
-        inc = s["inc"]
-        st = final_stats.get(n)
-        if st is None:
+    for ent in all_subs:
+        n = ent["name"]
+        trec = ent["trec"]
+        if trec is None:
             continue
-        missing = must.get(inc, set()) - got.get(inc, set())
-        if missing and st[1] == 0 and drained:
-            # backlog is empty at the end and the message never showed up
-            f.append(("c01:lost", "subscription %r never received message(s) %s published while it was attached (backlog empty at the end)"
+        allowed, must = set(), set()
+        for p in pubs:
+            if p["topic"] != ent["topic"]:
+                continue
+            # not foreign: the publish had not completed before the creation began
+            if p["e"] > ent["b"]:
+                allowed.update(p["ids"])
+            # owed: created before the publish began; neither subscription nor topic deletion began before it ended
+            if ent["e"] < p["b"] and (ent["del_b"] is None or ent["del_b"] > p["e"]) and (trec["del_b"] is None or trec["del_b"] > p["e"]) \
+                    and trec["e"] < p["b"]:
+                must.update(p["ids"])
+        got = set()
+        for d in by_name_delivs.get(n, []):
+            if d["b"] < ent["b"]:
+                continue
+            if ent["del_b"] is not None and ent["deleted"] and d["b"] > ent["del_b"] and False:
+                continue
+            for (_, m, _, _) in d["items"]:
+                got.add(m)
+                if m not in allowed and ent["topic"] not in unknown_pub and not ent["deleted"]:
+                    f.append(("c01:foreign", "subscription %r received message %d which was not published to its topic while it was attached (op #%d)"
+                              % (n, m, d["ev"])))
+        if ent["deleted"] or ent["del_b"] is not None or not drained:
+            continue
+        st = final_stats.get(n)
+        if st is None or st[1] != 0:
+            continue
+        missing = must - got
+        if missing:
+            f.append(("c01:lost", "subscription %r never received message(s) %s whose Publish returned while it was attached (backlog empty at the end)"
                       % (n, sorted(missing)[:5])))
-        if drained:
-            never_acked = must.get(inc, set()) - acked_msgs.get(inc, set())
-            final_seen = set()
-            for d in w.delivs:
-                if d["sub_inc"] == inc and d["ev"] >= w.drain_from:
-                    final_seen.update(m for (_, m, _, _) in d["items"])
-            lost = never_acked - final_seen
-            if lost and st[1] == 0:
-                f.append(("c01:not-redelivered", "unacknowledged message(s) %s of %r are neither redelivered after all leases ended nor in the backlog"
-                          % (sorted(lost)[:5], n)))
+        acked = set()
+        for x in w.acks:
+            for raw in x["ids"]:
+                if ackid_ok(raw):
+                    for d in by_name_delivs.get(n, []):
+                        for (a_, m, _, _) in d["items"]:
+                            if a_ == int(raw.lstrip(b"+")) and x["sub_inc"] == d["sub_inc"]:
+                                acked.add(m)
+        final_seen = set()
+        for d in by_name_delivs.get(n, []):
+            if d["ev"] >= w.drain_from:
+                final_seen.update(m for (_, m, _, _) in d["items"])
+        lost = must - acked - final_seen
+        if lost:
+            f.append(("c01:not-redelivered", "unacknowledged message(s) %s of %r are neither redelivered after all leases ended nor in the backlog"
+                      % (sorted(lost)[:5], n)))
     return f
 
 
 def c08(w):
     f = []
-    last_id = {}
     for p in w.pubs:
         if len(p["ids"]) != len(p["payloads"]):
             f.append(("c08:id-count", "Publish of %d messages returned %d ids (op #%d)" % (len(p["payloads"]), len(p["ids"]), p["ev"])))
-        seq = ([last_id[p["topic_inc"]]] if p["topic_inc"] in last_id else []) + p["ids"]
-        if any(b <= a for a, b in zip(seq, seq[1:])):
-            f.append(("c08:ids-not-increasing", "message ids of topic incarnation %s do not increase strictly: %s (op #%d)" % (p["topic_inc"], seq[:6], p["ev"])))
-        if p["ids"]:
-            last_id[p["topic_inc"]] = p["ids"][-1]
-    first_seen = {}
-    for d in w.delivs:
-        if d["sub_inc"] is None:
-            continue
-        for (_, m, _, _) in d["items"]:
-            s = first_seen.setdefault(d["sub_inc"], [])
-            if m not in s:
-                if s and m < max(s):
-                    f.append(("c08:first-delivery-order:%s" % d["via"], "on %r message %d is first delivered after a later one (%d) (op #%d)" % (d["sub"], m, max(s), d["ev"])))
-                s.append(m)
+        if any(b <= a for a, b in zip(p["ids"], p["ids"][1:])):
+            f.append(("c08:ids-not-increasing", "message ids within one response do not increase strictly: %s (op #%d)" % (p["ids"][:6], p["ev"])))
+    for p in w.pubs:
+        for q in w.pubs:
+            if p["topic_inc"] == q["topic_inc"] and p["e"] < q["b"] and p["ids"] and q["ids"] and not (max(p["ids"]) < min(q["ids"])):
+                f.append(("c08:ids-not-increasing", "a publish that completed (op #%d) before another began (op #%d) got larger ids: %s vs %s"
+                          % (p["ev"], q["ev"], p["ids"][:3], q["ids"][:3])))
+    # first deliveries in id order: within a response, and between responses ordered in real time
+    firsts = {}
+    seen = {}
+    # deliveries to a stream that was dropped before being read are invisible to the client: the
+    # client-side order check is only sound for subscriptions that never had a stream
+    streamed = set(st["sub_inc"] for st in w.streams.values())
+    by_e = sorted([d for d in w.delivs if d["sub_inc"] is not None and d["sub_inc"] not in streamed], key=lambda d: d["e"])
+    for d in by_e:
+        fresh = [m for (_, m, _, _) in d["items"] if not any(m in dd for (ee, dd) in seen.get(d["sub_inc"], []) if ee < d["b"])]
+        # `fresh`: not delivered by any response that certainly finished before this one began
+        really = [m for m in fresh if not any(m in dd for (_, dd) in seen.get(d["sub_inc"], []))]
+        if any(b <= a for a, b in zip(really, really[1:])):
+            f.append(("c08:first-delivery-order:%s" % d["via"], "first deliveries inside one response on %r are out of id order: %s (op #%d)" % (d["sub"], really[:6], d["ev"])))
+        for (ee, bb, prev) in firsts.get(d["sub_inc"], []):
+            if ee < d["b"] and prev and really and max(prev) > min(really):
+                f.append(("c08:first-delivery-order:%s" % d["via"], "on %r message %d is first delivered after a later one (%d) was first delivered by a response that had finished (op #%d)"
+                          % (d["sub"], min(really), max(prev), d["ev"])))
+                break
+        firsts.setdefault(d["sub_inc"], []).append((d["e"], d["b"], really))
+        seen.setdefault(d["sub_inc"], []).append((d["e"], set(m for (_, m, _, _) in d["items"])))
     return f
 
 
@@ -589,7 +669,7 @@ def c11(w):
                     f.append(("c11:deleted-topic-not-reported", "gsub reports %r although its topic was deleted (op #%d)" % (rep, e.i)))
     for x in w.dead_subs:
         for d in w.delivs:
-            if d["sub_inc"] == x["inc"] and d["ev0"] > x["ev"] and d["items"]:
+            if d["sub_inc"] == x["inc"] and d["b"] > x["e"] and d["items"]:
                 f.append(("c11:delivery-after-delete", "deleted subscription %r still delivers (op #%d)" % (x["name"], d["ev"])))
     return f
 
@@ -689,12 +769,152 @@ def c17(w):
     return f
 
 
+def _consumers_across(w, sub, b, e):
+    """Consumers of `sub` that are waiting during the whole interval [b, e]."""
+    out = []
+    for x in w.evs:
+        if x.op == "pull" and len(x.args) >= 3 and x.args[2] == "0" and split_name(unhx(x.args[0]), b"subscriptions") == sub \
+                and x.b < b and x.e > e:
+            out.append("blocking Pull (op #%d)" % x.i)
+    opened = {}
+    for x in w.evs:
+        if x.op == "sopen" and x.ans == "ok" and split_name(unhx(x.args[1]), b"subscriptions") == sub:
+            opened[(x.args[0], x.i)] = [x.e, None]
+    for (k, i0), iv in opened.items():
+        for x in w.evs:
+            if x.i > i0 and x.op in ("sdrop", "ssend") and x.args[0] == k and iv[1] is None:
+                iv[1] = x.b
+            if x.i > i0 and x.op == "sread" and x.args[0] == k and "end:" in x.ans and iv[1] is None:
+                iv[1] = x.b
+        if iv[0] < b and (iv[1] is None or iv[1] > e):
+            out.append("open StreamingPull %s (op #%d)" % (k, i0))
+    return out
+
+
+def c06(w):
+    """At a quiescent instant no message is queued while a consumer of that subscription waits."""
+    f = []
+    for x in w.evs:
+        if x.op == "probe" and x.ans not in ("none", "closed") and not x.ans.startswith(("HANG", "PANIC")):
+            parts = x.ans.split()
+            backlog = int(parts[1])
+            sub = split_name(unhx(x.args[0]), b"subscriptions")
+            if backlog > 0:
+                waiting = _consumers_across(w, sub, x.b, x.e)
+                if waiting:
+                    kinds = "+".join(sorted(set(wt.split(" (")[0].replace(" ", "-") for wt in waiting)))
+                    f.append(("c06:parked-with-backlog:%s" % kinds, "%d message(s) queued on %r at a quiescent instant (t=%d) while %s wait(s) (op #%d)"
+                              % (backlog, sub, x.t1, ", ".join(waiting), x.i)))
+    return f
+
+
+NONBLOCKING = {"ctopic", "gtopic", "dtopic", "ltopics", "ltsubs", "csub", "gsub", "lsubs", "dsub", "pub", "ack", "mod", "stats",
+               "wtopics", "wsubs", "wtsubs"}
+
+
+def c07(w):
+    """Every request terminates; nothing but a blocking Pull takes virtual time."""
+    f = []
+    for x in w.evs:
+        if x.ans.startswith("HANG") or (x.op.startswith("drop") and x.ans == "HANG"):
+            f.append(("c07:hang:%s" % x.op, "`%s` still pending after one virtual hour (op #%d)" % (x.line[:80], x.i)))
+        elif (x.op in NONBLOCKING or (x.op == "pull" and len(x.args) >= 3 and x.args[2] == "1")) and x.t1 - x.t0 > 0:
+            f.append(("c07:waited:%s" % x.op, "`%s` took %d us of virtual time (op #%d)" % (x.line[:80], x.t1 - x.t0, x.i)))
+        elif x.op == "pull" and len(x.args) >= 3 and x.args[2] == "0" and x.t1 - x.t0 > 300 * US + 1000:
+            f.append(("c07:pull-limit", "blocking Pull returned after %d us (> 300 s) (op #%d)" % (x.t1 - x.t0, x.i)))
+    return f
+
+
+def c12(w):
+    """Deleting a subscription releases its consumers at once; racers never hang."""
+    f = []
+    for x in w.evs:
+        if x.ans.startswith("HANG"):
+            f.append(("c12:hang:%s" % x.op, "`%s` hangs (op #%d)" % (x.line[:80], x.i)))
+    for dx in w.evs:
+        if dx.op != "dsub" or not dx.ans.startswith("ok"):
+            continue
+        sub = split_name(unhx(dx.args[0]), b"subscriptions")
+        for x in w.evs:
+            if x.op == "pull" and len(x.args) >= 3 and x.args[2] == "0" and split_name(unhx(x.args[0]), b"subscriptions") == sub and x.b < dx.b and x.e > dx.e:
+                # blocked across the whole delete call
+                if x.t1 > dx.t1:
+                    f.append(("c12:not-released:pull", "Pull blocked on the deleted subscription returned %d us after the deletion (op #%d)" % (x.t1 - dx.t1, x.i)))
+                elif x.ans.startswith("ok") and x.ans.strip() == "ok -":
+                    f.append(("c12:not-released:pull-empty-ok", "Pull blocked on the deleted subscription returned an empty OK response (op #%d)" % x.i))
+        # streams opened before the delete: the first read after the delete must show the end
+        opened = {}
+        for x in w.evs:
+            if x.op == "sopen" and x.ans == "ok" and split_name(unhx(x.args[1]), b"subscriptions") == sub and x.e < dx.b:
+                opened[x.args[0]] = x.i
+        for k, i0 in opened.items():
+            reads = [x for x in w.evs if x.op == "sread" and x.args[0] == k and x.b > dx.e]
+            dropped = [x for x in w.evs if x.op in ("sdrop",) and x.args[0] == k and x.b < dx.e]
+            if reads and not dropped:
+                r = reads[0]
+                if "end:not_found" not in r.ans:
+                    f.append(("c12:not-released:stream:%s" % ("silent-end" if "end:ok" in r.ans else "still-open" if r.ans.endswith("open") else "other"),
+                              "StreamingPull %s read after the deletion shows %r, expected termination with NOT_FOUND (op #%d)" % (k, r.ans[-60:], r.i)))
+    return f
+
+
+def c16(w):
+    """After an abandoned request the server is in a state reachable without it or with it
+    completed: every existing subscription is attached to its (live) topic and receives."""
+    f = []
+    for x in w.evs:
+        if x.ans.startswith("HANG"):
+            f.append(("c16:hang:%s" % x.op, "`%s` hangs after an abandoned request (op #%d)" % (x.line[:80], x.i)))
+    go = [x.i for x in w.evs if x.op == "go"]
+    if not go:
+        return f
+    after = [x for x in w.evs if x.i > go[-1]]
+    listed = None
+    existing = None
+    topic_alive = True
+    for x in after:
+        if x.op == "wtsubs":
+            if x.ans.startswith("ok"):
+                listed = set()
+                for pg in x.ans.split(" | "):
+                    listed.update(split_name(unhx(n), b"subscriptions") for n in sl(pg.split(" ")[1], ","))
+            else:
+                topic_alive = False
+        if x.op == "wsubs" and x.ans.startswith("ok"):
+            existing = set()
+            for pg in x.ans.split(" | "):
+                existing.update(split_name(unhx(it.split("/")[0]), b"subscriptions") for it in sl(pg.split(" ")[1], ","))
+    if listed is not None and existing is not None and topic_alive:
+        orphan = existing - listed
+        if orphan:
+            f.append(("c16:orphan-subscription", "subscription(s) %r exist but are not attached to their topic" % sorted(orphan)))
+        ghost = listed - existing
+        if ghost:
+            f.append(("c16:ghost-attachment", "topic lists subscription(s) %r that do not exist" % sorted(ghost)))
+    # the probe publish after the scenario must reach every existing subscription
+    probe_ids = None
+    for x in after:
+        if x.op == "pub" and x.ans.startswith("ok"):
+            probe_ids = set(int(unhx(i)) for i in sl(x.ans[3:].strip(), ","))
+            probe_i = x.i
+    if probe_ids and existing is not None and topic_alive:
+        for sname_ in existing:
+            got = set()
+            for x in after:
+                if x.op == "pull" and x.i > probe_i and split_name(unhx(x.args[0]), b"subscriptions") == sname_ and x.ans.startswith("ok"):
+                    got.update(m for (_, m, _, _) in parse_delivs(x.ans[3:].strip()))
+            if not probe_ids <= got:
+                f.append(("c16:existing-subscription-receives-nothing", "subscription %r exists but a publish to its topic never reaches it" % (sname_,)))
+    return f
+
+
 SEQ_ORACLES = {"C01": c01, "C02": c02, "C03": c03, "C04": c04, "C08": c08, "C09": c09, "C10": c10, "C11": c11,
-               "C13": c13, "C15": c15, "C17": c17}
+               "C13": c13, "C15": c15, "C17": c17,
+               "C06": c06, "C07": c07, "C12": c12, "C16": c16}
 
 
-def run_seq_oracle(prop, ops, answers, sides):
-    evs = history(ops, answers, sides)
+def run_seq_oracle(prop, ops, answers, sides, conc=False):
+    evs = history(ops, answers, sides, conc)
     fails = generic(evs)
     fn = SEQ_ORACLES.get(prop)
     if fn is not None:
